@@ -1,11 +1,9 @@
 (* C18, tie by TRANSLATION - what the parser of the framework's attributes refuses, and with which diagnostic:
    `ParsedSylviaAttributes::new` / `match_attribute` and `SylviaAttribute::new` of sylvia-derive/src/parser/attributes/mod.rs
-   translated from the source on every run (GenImpParse.attrparse_fns; Facts/ParseRefine.v, ParseFacts.v), and the early
-   `return None` of `StructMessage::new` (GenImpAttr.msgnew_fns; Facts/AttrRefine.v). Diagnostics (`emit_error!`) are appended to a
+   translated from the source on every run (GenImpParse.attrparse_fns; Facts/ParseRefine.v, ParseFacts.v). Diagnostics (`emit_error!`) are appended to a
    ghost field of the object being built, with the message text of the source. Statements only. *)
 From Coq Require Import String List Bool.
-Require Import SV.Model.Imp SV.Model.GenImpParse SV.Model.GenImpAttr SV.Model.GenImpCheck SV.Facts.ImpFacts SV.Facts.MacroRefine SV.Facts.AttrRefine
-               SV.Facts.ParseRefine SV.Facts.ParseFacts SV.Facts.CheckRefine.
+Require Import SV.Model.Imp SV.Model.GenImpParse SV.Facts.ImpFacts SV.Facts.MacroRefine SV.Facts.ParseRefine SV.Facts.ParseFacts.
 Import ListNotations.
 Open Scope string_scope.
 Open Scope list_scope.
@@ -43,36 +41,6 @@ Theorem c18_translated_bare_payload_and_data : forall s path e ty,
    s_diags (step s {| a_path := path; a_content := NotList e; a_msg_type := ty |}) = s_diags s).
 Proof. intros s path e ty. unfold step. cbn [a_path a_content]. split; intros ->; cbn; auto. Qed.
 
-(* no instantiate / migrate message type when the instantiate handler is missing or a handler of the kind is declared twice *)
-Theorem c18_translated_missing_or_duplicated_handler :
-  (forall l nx ae aq w g err custom,
-     calls (ATTR l [] nx ae aq) 2 "StructMessage::new" [item_impl w (VStr "Self type"); kind_v "Instantiate"; g; err; custom] (CVal none)) /\
-  (forall l v1 v2 vs (b : bool) nx ae aq ty w g err custom,
-     calls (ATTR l (v1 :: v2 :: vs) (opt b nx) ae aq) 2 "StructMessage::new" [item_impl w (VStr "Self type"); kind_v ty; g; err; custom] (CVal none)).
-Proof. exact (conj translated_struct_message_missing_instantiate translated_struct_message_duplicated). Qed.
-
-(* the constructor: for EVERY impl block, `assert_new_method_defined` (parser/mod.rs) emits nothing exactly when the FIRST method
-   called `new` takes no parameters; "Parameters not allowed .." when it takes some; "Missing `new` method .." when there is none *)
-Theorem c18_translated_constructor_check : forall d (l : list impl_item) other,
-  calls check_fns (S d) "assert_new_method_defined" [impl_v l other] (CVal (VArr (new_method_diags l))).
-Proof. exact translated_assert_new_method_defined. Qed.
-
-Theorem c18_translated_constructor_verdicts : forall l,
-  (new_method_diags l = [] <-> exists o, find is_new l = Some (Method "new" [] o)) /\
-  (find is_new l = None -> new_method_diags l = [VStr "Missing `new` method in `impl` block."]) /\
-  (forall n x xs o, find is_new l = Some (Method n (x :: xs) o) -> new_method_diags l = [VStr "Parameters not allowed in `new` method."]).
-Proof.
-  intros l. unfold new_method_diags. split; [|split].
-  - destruct (find is_new l) as [[n [|x xs] o|v]|] eqn:Hf.
-    + apply find_some in Hf. destruct Hf as [_ Hf]. cbn in Hf. apply String.eqb_eq in Hf. subst n.
-      split; [intros _; exists o; reflexivity | reflexivity].
-    + split; [discriminate | intros [o' H]; discriminate].
-    + apply find_some in Hf. destruct Hf as [_ Hf]. discriminate.
-    + split; [discriminate | intros [o' H]; discriminate].
-  - intros ->. reflexivity.
-  - intros n x xs o ->. reflexivity.
-Qed.
-
 (* non-vacuity: a method with `#[sv::msg(exec)] #[doc] #[sv::msg(query)]`: the first kind is kept, one diagnostic *)
 Definition ex_attrs : list ain :=
   [ {| a_path := ["sv"; "msg"]; a_content := IsList true (VStr "exec"); a_msg_type := "Exec" |};
@@ -89,6 +57,3 @@ Print Assumptions c18_translated_second_msg_attribute_is_refused.
 Print Assumptions c18_translated_first_msg_attribute_wins.
 Print Assumptions c18_translated_variant_attr_on_struct_message_is_refused.
 Print Assumptions c18_translated_bare_payload_and_data.
-Print Assumptions c18_translated_missing_or_duplicated_handler.
-Print Assumptions c18_translated_constructor_check.
-Print Assumptions c18_translated_constructor_verdicts.
